@@ -34,6 +34,7 @@ import (
 var (
 	ErrCannotMergeTypes = fmt.Errorf("cannot merge types")
 	ErrEmptyTypesList   = fmt.Errorf("types list is empty")
+	ErrNullSubschema    = fmt.Errorf("null is not a valid subschema")
 )
 
 // Schema is the root schema.
@@ -70,6 +71,70 @@ func (s *Schema) UnmarshalJSON(data []byte) error {
 	}
 
 	*s = Schema(unmarshSchema)
+
+	return s.checkNoNullSubschemas()
+}
+
+// checkNoNullSubschemas rejects documents that state null where a subschema is
+// expected (for instance {"properties": {"a": null}}). Such an entry decodes to
+// a nil *Type that the generator would dereference.
+func (s *Schema) checkNoNullSubschemas() error {
+	for name, def := range s.Definitions {
+		if def == nil {
+			return fmt.Errorf("%w: definition %q", ErrNullSubschema, name)
+		}
+
+		if err := def.checkNoNullSubschemas("definition " + name); err != nil {
+			return err
+		}
+	}
+
+	if s.ObjectAsType == nil {
+		return nil
+	}
+
+	return (*Type)(s.ObjectAsType).checkNoNullSubschemas("root")
+}
+
+func (value *Type) checkNoNullSubschemas(where string) error {
+	named := map[string]map[string]*Type{
+		"properties":        value.Properties,
+		"patternProperties": value.PatternProperties,
+		"$defs":             value.Definitions,
+		"dependentSchemas":  value.DependentSchemas,
+	}
+	for keyword, subschemas := range named {
+		for name, sub := range subschemas {
+			if sub == nil {
+				return fmt.Errorf("%w: %s of %s, key %q", ErrNullSubschema, keyword, where, name)
+			}
+
+			if err := sub.checkNoNullSubschemas(where + "/" + name); err != nil {
+				return err
+			}
+		}
+	}
+
+	listed := map[string][]*Type{"allOf": value.AllOf, "anyOf": value.AnyOf, "oneOf": value.OneOf}
+	for keyword, subschemas := range listed {
+		for i, sub := range subschemas {
+			if sub == nil {
+				return fmt.Errorf("%w: %s of %s, element %d", ErrNullSubschema, keyword, where, i)
+			}
+
+			if err := sub.checkNoNullSubschemas(where + "/" + keyword); err != nil {
+				return err
+			}
+		}
+	}
+
+	for _, sub := range []*Type{value.Items, value.AdditionalItems, value.AdditionalProperties, value.Not} {
+		if sub != nil {
+			if err := sub.checkNoNullSubschemas(where); err != nil {
+				return err
+			}
+		}
+	}
 
 	return nil
 }
